@@ -65,6 +65,10 @@ WHITELIST = [
     ("get_valid_value_extents", ["arr", "int", "int", "int"]),
     ("map_valid", ["arr", "arr", "opt_arr", "int"]),
     ("ordered_map_valid_partial", ["arr", "arr", "int", "int", "int", "arr", "int", "int"]),
+    ("generate_ordered_map_to_left_both_unique_partial", ["arr", "arr", "arr", "int", "int", "int", "int", "int"]),
+    ("generate_ordered_map_to_left_remaining", ["int", "arr", "arr", "int", "int", "int", "int"]),
+    ("generate_ordered_map_to_left_right_unique_remaining", ["int", "arr", "int", "int", "int"]),
+    ("generate_ordered_map_to_left_partial", ["arr", "int", "arr", "int", "arr", "arr"] + ["int"] * 10 + ["bool"]),
 ]
 
 LEAN_T = {"int": "Int", "bool": "Bool", "arr": "List Int", "barr": "List Bool", "opt_arr": "Option (List Int)"}
